@@ -41,8 +41,9 @@ func badHarness(skeleton string, nMethods int) (rejected bool) {
 	for _, t := range texts {
 		vrt.Observe("func", t)
 		if vrt.ParsesAsFunc(t) != "" {
-			// e.g. a :literal that is no Go expression: the run is rejected by the formatter
-			// (Generate: format.Source), which is a non-zero exit with a message
+			// the emitted text is no Go: the run would only be rejected by the formatter
+			// (Generate: format.Source), whose message does not name the offending notation
+			vrt.AssertMsg("malformed-notation-rejected-before-the-formatter", false, t)
 			vrt.Reach("rejected-by-formatter")
 			return true
 		}
@@ -68,6 +69,7 @@ var mustReject = []string{
 	":conv ThreeRet Name", ":conv TwoRetNoErr Name", ":conv ext.NoSuch Name", ":conv ext.hidden Name", ":conv nopkg.F Name",
 	":style", ":style foo", ":match", ":match x", ":recv", ":recv 1x", ":recv r-x", ":skip", ":skip /[/", ":skip /(/", ":map", ":map Name",
 	":conv", ":conv Good", ":literal", ":literal Name", ":preprocess", ":postprocess", ":reverse",
+	":recv func", ":recv range", ":literal Name )(", ":literal Name \"oops", ":literal Name \"a\" +",
 }
 
 var mustAccept = []string{
@@ -92,12 +94,26 @@ func C14BadNotation() {
 	vrt.SlotText("bad", "M1")
 	// interface-level and method-level candidates are explored separately
 	vrt.Assume(n1 == "" || i1 == "")
-	rejected := badHarness("bad", 3)
+	h1, h2 := vrt.SlotText("bad", "H1"), vrt.SlotText("bad", "H2")
+	// the hooks of the methods with additional arguments are explored on their own
+	vrt.Assume(vrt.Implies(h1 != "" || h2 != "", n1 == "" && i1 == ""))
+	rejected := badHarness("bad", 5)
+	if n1 == "" && i1 == "" && vrt.SlotText("bad", "M1") == "" && vrt.SlotText("bad", "N2") == "" {
+		// a hook fits when every operand the method passes is assignable to its parameter
+		fits := map[string]bool{":preprocess HookExact": true, ":preprocess HookWide": true, ":postprocess HookWide": true,
+			":preprocess HookNarrow": false, ":preprocess HookN": false}
+		if want, ok := fits[h1]; ok && h2 == "" {
+			vrt.AssertMsg("hook-with-additional-arguments-accepted-iff-it-fits", rejected == !want, h1)
+		}
+		if h1 == "" && h2 != "" {
+			vrt.AssertMsg("hook-on-a-method-with-a-blank-argument-accepted", !rejected, h2)
+		}
+	}
 	// a malformed interface-level notation fails the run (whatever other converter interfaces the file has)
 	if i1 == ":style" || i1 == ":style foo" || i1 == ":match x" {
 		vrt.AssertMsg("malformed-interface-notation-is-rejected", rejected, i1)
 	}
-	if i1 == "" && vrt.SlotText("bad", "M1") == "" {
+	if i1 == "" && vrt.SlotText("bad", "M1") == "" && h1 == "" && h2 == "" {
 		if inList(mustReject, n1) && !(n1 == ":reverse" && vrt.SlotText("bad", "N2") == ":style arg") {
 			vrt.AssertMsg("documented-unusable-shape-is-rejected", rejected, n1)
 		}
@@ -124,8 +140,15 @@ func C06CrossConv() {
 	var texts []string
 	var err error
 	stderr := vrt.CaptureStderr(func() { texts, err = frontHalf("xconv") })
-	vrt.SlotText("xconv", "S1")
-	vrt.AssertMsg("well-formed-file-accepted", err == nil && len(texts) == 6, stderr)
+	s1, s2 := vrt.SlotText("xconv", "S1"), vrt.SlotText("xconv", "S2")
+	if s2 == ":conv WithN In" || (s2 == ":conv ToBErr In" && s1 == ":style arg") {
+		// a to-be-generated function that takes an additional argument, or is generated in arg
+		// style, cannot be called as a converter: refused with a positioned diagnostic
+		vrt.AssertMsg("unusable-generated-converter-rejected", err != nil && positioned(stderr, vrt.SkeletonPath("xconv")), stderr)
+		vrt.Reach("rejected")
+		return
+	}
+	vrt.AssertMsg("well-formed-file-accepted", err == nil && len(texts) == 8, stderr)
 	if err != nil {
 		return
 	}
